@@ -702,7 +702,7 @@ theorem infos_hyperbolic (mu r a e nu : ℝ) (hmu : 0 < mu) (ha : a < 0) (h1 : 1
   · field_simp
   · field_simp
 
-/-! ## keplerian ↔ cartesian (partial) -/
+/-! ## keplerian ↔ cartesian -/
 
 /-- **keplerian → cartesian, definition-truth of the result (partial round trip)**: for `µ p ≥ 0`, `p = a(1−e²) ≠ 0`,
 `1 + e cos ν ≠ 0` the state returned by the code has radius `r = p/(1+e cos ν)`, speed given by vis-viva
@@ -743,23 +743,63 @@ theorem keplToCart_radius_speed_momentum (mu a e i Ω ω ν x y z vx vy vz : ℝ
   · field_simp; linear_combination (H * ci * cn * e + H * ci * cu ^ 2 + H * ci * su ^ 2) * h1 + (H * cO ^ 2 * ci * cn * e + H * ci + H * ci * cn * e * sO ^ 2) * h3
 
 
-/-- **keplerian → cartesian → keplerian, partial**: a, e, i are recovered exactly and Ω as the same point of the circle
-(`µ > 0`, `a ≠ 0`, `e ≥ 0`, `p = a(1−e²) > 0`, `1 + e cos ν > 0`, `0 < i < π`; ellipses and hyperbolas alike).
-The full statement also needs ω and ν (the perigee/anomaly split of `cartesian → keplerian`); that part is not proved. -/
-theorem kepl_cart_kepl_partial (mu a e i Ω ω ν : ℝ) (hmu : 0 < mu) (ha : a ≠ 0) (he0 : 0 ≤ e)
+/-- more definition-truth of `keplerian → cartesian`: `r·v = √(µp)·e sin ν·r/p`, `z = r sin i sin(ω+ν)` and the
+component of the position along the node line `x cos Ω + y sin Ω = r cos(ω+ν)` -/
+theorem keplToCart_dot_node (mu a e i Ω ω ν x y z vx vy vz : ℝ)
+    (ha : a ≠ 0) (he : 1 - e ^ 2 ≠ 0) (hD : 1 + e * Real.cos ν ≠ 0)
+    (h : keplToCart mu a e i Ω ω ν = [x, y, z, vx, vy, vz]) :
+    let r := a * (1 - e ^ 2) / (1 + e * Real.cos ν)
+    let hh := Real.sqrt (mu * (a * (1 - e ^ 2)))
+    vx * x + vy * y + vz * z = hh * (e * Real.sin ν * r / (a * (1 - e ^ 2))) ∧
+    z = r * (Real.sin i * Real.sin (ω + ν)) ∧ x * Real.cos Ω + y * Real.sin Ω = r * Real.cos (ω + ν) := by
+  intro r hh
+  simp only [keplToCart, powi, sqrt, cos, sin, List.cons.injEq, and_true] at h
+  obtain ⟨rfl, rfl, rfl, rfl, rfl, rfl⟩ := h
+  have h1 := Real.sin_sq_add_cos_sq Ω
+  have h2 := Real.sin_sq_add_cos_sq i
+  have h3 := Real.sin_sq_add_cos_sq (ω + ν)
+  simp only [r]
+  change _ = Real.sqrt (mu * (a * (1 - e ^ 2))) * _ ∧ _ ∧ _
+  generalize Real.sqrt (mu * (a * (1 - e ^ 2))) = H at *
+  generalize Real.cos Ω = cO at *
+  generalize Real.sin Ω = sO at *
+  generalize Real.cos i = ci at *
+  generalize Real.sin i = si at *
+  generalize Real.cos (ω + ν) = cu at *
+  generalize Real.sin (ω + ν) = su at *
+  generalize Real.cos ν = cn at *
+  generalize Real.sin ν = sn at *
+  refine ⟨?_, ?_, ?_⟩
+  · field_simp; linear_combination (H * ci ^ 2 * cn * cu * e * su + H * ci ^ 2 * cu * su + (-1) * H * ci ^ 2 * cu ^ 2 * e * sn + H * ci ^ 2 * e * sn + (-1) * H * cn * cu * e * su + (-1) * H * cu * su + H * cu ^ 2 * e * sn) * h1 + (H * cn * cu * e * su + H * cu * su + H * e * sn * su ^ 2) * h2 + (H * cO ^ 2 * ci ^ 2 * e * sn + H * ci ^ 2 * e * sO ^ 2 * sn + (-1) * H * ci ^ 2 * e * sn + H * e * sn) * h3
+  · ring
+  · field_simp; linear_combination (cu) * h1
+
+
+/-- **keplerian → cartesian → keplerian, in full** (`µ > 0`, `a ≠ 0`, `e > 0`, `p = a(1−e²) > 0`, `1 + e cos ν > 0`,
+`0 < i < π`; ellipses and hyperbolas alike): a, e, i are recovered exactly, Ω, ω, ν as the same points of the circle and
+exactly when they lie in `[0, 2π)` — the range `cartesian → keplerian` itself produces. -/
+theorem kepl_cart_kepl (mu a e i Ω ω ν : ℝ) (hmu : 0 < mu) (ha : a ≠ 0) (he0 : 0 < e)
     (hp : 0 < a * (1 - e ^ 2)) (hD : 0 < 1 + e * Real.cos ν) (hi : 0 < i ∧ i < Real.pi) :
-    ∃ Ω', (app6 cartToKepl mu (keplToCart mu a e i Ω ω ν)).take 4 = [a, e, i, Ω'] ∧ AngEq Ω' Ω := by
+    ∃ Ω' ω' ν', app6 cartToKepl mu (keplToCart mu a e i Ω ω ν) = [a, e, i, Ω', ω', ν'] ∧
+      AngEq Ω' Ω ∧ AngEq ω' ω ∧ AngEq ν' ν ∧
+      (0 ≤ Ω ∧ Ω < 2 * Real.pi → Ω' = Ω) ∧ (0 ≤ ω ∧ ω < 2 * Real.pi → ω' = ω) ∧ (0 ≤ ν ∧ ν < 2 * Real.pi → ν' = ν) := by
   have he : 1 - e ^ 2 ≠ 0 := by rintro h; rw [h] at hp; simp at hp
   have hmp : 0 < mu * (a * (1 - e ^ 2)) := by positivity
   obtain ⟨x, y, z, vx, vy, vz, hk⟩ : ∃ x y z vx vy vz, keplToCart mu a e i Ω ω ν = [x, y, z, vx, vy, vz] := by
     simp only [keplToCart]; exact ⟨_, _, _, _, _, _, rfl⟩
   obtain ⟨f1, f2, f3, f4, f5⟩ := keplToCart_radius_speed_momentum mu a e i Ω ω ν x y z vx vy vz hmp.le ha he hD.ne' hk
+  obtain ⟨f6, f7, f8⟩ := keplToCart_dot_node mu a e i Ω ω ν x y z vx vy vz ha he hD.ne' hk
   have hH : 0 < Real.sqrt (mu * (a * (1 - e ^ 2))) := Real.sqrt_pos.mpr hmp
   have hHH : Real.sqrt (mu * (a * (1 - e ^ 2))) ^ 2 = mu * (a * (1 - e ^ 2)) := Real.sq_sqrt hmp.le
   have hr : 0 < a * (1 - e ^ 2) / (1 + e * Real.cos ν) := by positivity
+  have hrD : a * (1 - e ^ 2) / (1 + e * Real.cos ν) * (1 + e * Real.cos ν) = a * (1 - e ^ 2) := by field_simp
   have hsi : 0 < Real.sin i := Real.sin_pos_of_pos_of_lt_pi hi.1 hi.2
   have h1 := Real.sin_sq_add_cos_sq Ω
   have h2 := Real.sin_sq_add_cos_sq i
+  have hsp : Real.sqrt (a * (1 - e ^ 2) / mu) * Real.sqrt (mu * (a * (1 - e ^ 2))) = a * (1 - e ^ 2) := by
+    rw [← Real.sqrt_mul (by positivity)]
+    have : a * (1 - e ^ 2) / mu * (mu * (a * (1 - e ^ 2))) = (a * (1 - e ^ 2)) ^ 2 := by field_simp
+    rw [this, Real.sqrt_sq hp.le]
   generalize Real.sqrt (mu * (a * (1 - e ^ 2))) = H at *
   generalize a * (1 - e ^ 2) / (1 + e * Real.cos ν) = r at *
   have hhn : Real.sqrt ((H * (Real.sin i * Real.sin Ω)) ^ 2 + (H * (-(Real.sin i * Real.cos Ω))) ^ 2 + (H * Real.cos i) ^ 2) = H := by
@@ -771,16 +811,119 @@ theorem kepl_cart_kepl_partial (mu a e i Ω ω ν : ℝ) (hmu : 0 < mu) (ha : a 
   have ha' : -mu / (2 * (-mu / (2 * a))) = a := by field_simp
   have he' : Real.sqrt (1 - H ^ 2 / (a * mu)) = e := by
     have : 1 - H ^ 2 / (a * mu) = e ^ 2 := by rw [hHH]; field_simp; ring
-    rw [this, Real.sqrt_sq he0]
+    rw [this, Real.sqrt_sq he0.le]
   have hi' : Real.arccos (H * Real.cos i / H) = i := by
     rw [mul_div_cancel_left₀ _ hH.ne', Real.arccos_cos hi.1.le hi.2.le]
   have hneg : -(H * -(Real.sin i * Real.cos Ω)) = H * Real.sin i * Real.cos Ω := by ring
   have hpos' : H * (Real.sin i * Real.sin Ω) = H * Real.sin i * Real.sin Ω := by ring
   have aΩ : AngEq (fmod (atan2 (H * (Real.sin i * Real.sin Ω)) (H * Real.sin i * Real.cos Ω)) (2 * pi)) Ω := by
     rw [hpos']; exact (fmod_two_pi_angEq _).trans (atan2_scaled (by positivity))
-  refine ⟨_, ?_, aΩ⟩
   rw [hk]
-  simp only [app6, cartToKepl, powi, sqrt, acos, f1, f3, f4, f5, hhn, Real.sqrt_sq hr.le, Real.sq_sqrt (show (0:ℝ) ≤ vx ^ 2 + vy ^ 2 + vz ^ 2 by positivity), f2, Real.sq_sqrt hvv, hK, ha', he', hi', hneg, List.take_succ_cons, List.take_zero]
+  simp only [app6, cartToKepl, powi, sqrt, acos, cos, sin, f1, f3, f4, f5, f6, hhn, Real.sqrt_sq hr.le, Real.sq_sqrt (show (0:ℝ) ≤ vx ^ 2 + vy ^ 2 + vz ^ 2 by positivity), f2, Real.sq_sqrt hvv, hK, ha', he', hi', hneg]
+  simp only [aΩ.1, aΩ.2, f8]
+  rw [f7]
+  have harg1 : Real.sqrt (a * (1 - e ^ 2) / mu) * (H * (e * Real.sin ν * r / (a * (1 - e ^ 2)))) = r * e * Real.sin ν := by
+    have : Real.sqrt (a * (1 - e ^ 2) / mu) * (H * (e * Real.sin ν * r / (a * (1 - e ^ 2))))
+        = (Real.sqrt (a * (1 - e ^ 2) / mu) * H) * (e * Real.sin ν * r / (a * (1 - e ^ 2))) := by ring
+    rw [this, hsp]; field_simp
+  have harg2 : a * (1 - e ^ 2) - r = r * e * Real.cos ν := by rw [← hrD]; ring
+  have harg3 : r * (Real.sin i * Real.sin (ω + ν)) / Real.sin i = r * Real.sin (ω + ν) := by field_simp
+  rw [harg1, harg2, harg3]
+  have aν : AngEq (fmod (atan2 (r * e * Real.sin ν) (r * e * Real.cos ν)) (2 * pi)) ν :=
+    (fmod_two_pi_angEq _).trans (atan2_scaled (by positivity))
+  have aω : AngEq (fmod (atan2 (r * Real.sin (ω + ν)) (r * Real.cos (ω + ν)) -
+      fmod (atan2 (r * e * Real.sin ν) (r * e * Real.cos ν)) (2 * pi)) (2 * pi)) ω := by
+    have := (fmod_two_pi_angEq (atan2 (r * Real.sin (ω + ν)) (r * Real.cos (ω + ν)) -
+      fmod (atan2 (r * e * Real.sin ν) (r * e * Real.cos ν)) (2 * pi))).trans ((atan2_scaled (w := ω + ν) hr).sub aν)
+    simpa using this
+  refine ⟨_, _, _, rfl, aΩ, aω, aν, ?_, ?_, ?_⟩
+  · intro h; exact AngEq.eq_of_mem_Ico (lo := 0) aΩ (by simpa using fmod_mem (x := _) two_pi_pos) (by simpa using h)
+  · intro h; exact AngEq.eq_of_mem_Ico (lo := 0) aω (by simpa using fmod_mem (x := _) two_pi_pos) (by simpa using h)
+  · intro h; exact AngEq.eq_of_mem_Ico (lo := 0) aν (by simpa using fmod_mem (x := _) two_pi_pos) (by simpa using h)
+
+/-- **cartesian → keplerian → cartesian is the identity on every state that is the cartesian view of keplerian elements
+in the domain** (position and velocity, all six numbers, exactly): by `kepl_cart_kepl` the elements read off are the
+original ones up to the circle relation, which `keplerian → cartesian` does not see.
+Not proved: that *every* cartesian state with `h ≠ 0`, `sin i ≠ 0`, `e ≠ 0` is such a view (existence of elements). -/
+theorem cart_kepl_cart_of_image (mu a e i Ω ω ν : ℝ) (hmu : 0 < mu) (ha : a ≠ 0) (he0 : 0 < e)
+    (hp : 0 < a * (1 - e ^ 2)) (hD : 0 < 1 + e * Real.cos ν) (hi : 0 < i ∧ i < Real.pi) :
+    app6 keplToCart mu (app6 cartToKepl mu (keplToCart mu a e i Ω ω ν)) = keplToCart mu a e i Ω ω ν := by
+  obtain ⟨Ω', ω', ν', heq, aΩ, aω, aν, _⟩ := kepl_cart_kepl mu a e i Ω ω ν hmu ha he0 hp hD hi
+  rw [heq]
+  exact keplToCart_respects_angEq mu a e i Ω ω ν Ω' ω' ν' aΩ aω aν
+
+
+/-! ## The whole walk -/
+
+/-- every link of a routed path round-trips exactly on the state the walk actually visits there
+(`(forward method, backward method)` pairs, in the order of the walk) -/
+def RoundTrips (fuel : Nat) (mu : ℝ) : List (String × String) → List ℝ → Prop
+  | [], _ => True
+  | l :: rest, c => ∀ t, step fuel mu l.1 c = some t → step fuel mu l.2 t = some c ∧ RoundTrips fuel mu rest t
+
+theorem walk_append (fuel : Nat) (mu : ℝ) (xs ys : List String) (c : List ℝ) :
+    walk fuel mu (xs ++ ys) c = (walk fuel mu xs c).bind (walk fuel mu ys) := by
+  induction xs generalizing c with
+  | nil => simp [walk]
+  | cons x xs ih =>
+    simp only [List.cons_append, walk]
+    cases step fuel mu x c with
+    | none => simp
+    | some t => simp [ih]
+
+/-- **walk_roundtrip (exact form), one statement over the routed path**: converting along any chain of links and
+back along the reversed chain of the inverse methods returns the start state, provided each link round-trips on the
+state visited there — by induction along the path, from per-link facts. (The per-link theorems of this file supply
+`RoundTrips` wherever the round trip is an equality of numbers; see `walk_roundtrip_cyl_sph` for an instance.
+For links that return angles only as the same points of the circle the composition needs every edge to respect
+`AngEq`, proved here for `keplerian → cartesian/circular` only — general statement open.) -/
+theorem walk_roundtrip_exact (fuel : Nat) (mu : ℝ) (links : List (String × String)) (c d : List ℝ)
+    (hrt : RoundTrips fuel mu links c) (hw : walk fuel mu (links.map Prod.fst) c = some d) :
+    walk fuel mu ((links.map Prod.snd).reverse) d = some c := by
+  induction links generalizing c with
+  | nil => simp only [List.map_nil, walk] at hw; simp [walk, ← Option.some.inj hw]
+  | cons l rest ih =>
+    simp only [List.map_cons, walk] at hw
+    cases hs : step fuel mu l.1 c with
+    | none => rw [hs] at hw; simp at hw
+    | some t =>
+      rw [hs] at hw
+      simp only [Option.bind_some] at hw
+      obtain ⟨hb, hrest⟩ := hrt t hs
+      have := ih t hrest hw
+      simp only [List.map_cons, List.reverse_cons, walk_append, this, Option.bind_some, walk, hb]
+
+/-- instance: cylindrical → cartesian → spherical and back (`r > 0`, `-π < θ ≤ π`): all six cylindrical numbers are
+returned exactly, for every µ, height and rates -/
+theorem walk_roundtrip_cyl_sph (fuel : Nat) (mu r θ z rd θd vz : ℝ) (hr : 0 < r) (hθ : -Real.pi < θ ∧ θ ≤ Real.pi) (d : List ℝ)
+    (hw : walk fuel mu ["cylindrical_to_cartesian", "cartesian_to_spherical"] [r, θ, z, rd, θd, vz] = some d) :
+    walk fuel mu ["spherical_to_cartesian", "cartesian_to_cylindrical"] d = some [r, θ, z, rd, θd, vz] := by
+  have key := walk_roundtrip_exact fuel mu
+    [("cylindrical_to_cartesian", "cartesian_to_cylindrical"), ("cartesian_to_spherical", "spherical_to_cartesian")]
+    [r, θ, z, rd, θd, vz] d ?_ (by simpa using hw)
+  · simpa using key
+  · intro t ht
+    obtain ⟨θ', h1, _, h3⟩ := cyl_cart_cyl mu r θ z rd θd vz hr
+    rw [h3 hθ] at h1
+    have hne : ("cylindrical_to_cartesian" : String) ≠ "keplerian_mean_to_keplerian_eccentric" := by decide
+    have hne2 : ("cartesian_to_cylindrical" : String) ≠ "keplerian_mean_to_keplerian_eccentric" := by decide
+    simp only [step, if_neg hne, edgeByName, Option.map_some, app6, Option.some.injEq] at ht
+    subst ht
+    refine ⟨?_, ?_⟩
+    · simp only [step, if_neg hne2, edgeByName, Option.map_some]; rw [h1]
+    · intro t2 ht2
+      refine ⟨?_, trivial⟩
+      have hne3 : ("cartesian_to_spherical" : String) ≠ "keplerian_mean_to_keplerian_eccentric" := by decide
+      have hne4 : ("spherical_to_cartesian" : String) ≠ "keplerian_mean_to_keplerian_eccentric" := by decide
+      have hxy : (r * Real.cos θ) ^ 2 + (r * Real.sin θ) ^ 2 ≠ 0 := by
+        have : (r * Real.cos θ) ^ 2 + (r * Real.sin θ) ^ 2 = r ^ 2 := by
+          linear_combination (r ^ 2) * Real.sin_sq_add_cos_sq θ
+        rw [this]; positivity
+      simp only [cylToCart, cos, sin] at ht2 ⊢
+      simp only [step, if_neg hne3, edgeByName, Option.map_some, app6, Option.some.injEq] at ht2
+      subst ht2
+      simp only [step, if_neg hne4, edgeByName, Option.map_some]
+      rw [cart_sph_cart mu _ _ _ _ _ _ hxy]
 
 /-! ## Non-vacuity: the hypothesis sets above are met by concrete, non-trivial values -/
 
@@ -790,7 +933,7 @@ example : ((3 : ℝ) ^ 2 + (-4) ^ 2 ≠ 0) := by norm_num
 example : (0 : ℝ) ≤ 1 / 2 ∧ (1 / 2 : ℝ) < 1 := by norm_num
 /-- hyperbola `e = 2` at perigee: `1 + e cos ν > 0` -/
 example : (1 : ℝ) < 2 ∧ (0 : ℝ) < 1 + 2 * Real.cos 0 := by norm_num
-/-- `kepl_cart_kepl_partial` / `infos_fpa_components_unit`: µ = 1, a = 1, e = 1/2, i = 1, ν = 0 -/
+/-- `kepl_cart_kepl` / `cart_kepl_cart_of_image` / `infos_fpa_components_unit`: µ = 1, a = 1, e = 1/2, i = 1, ν = 0 -/
 example : (0 : ℝ) < 1 * (1 - (1 / 2) ^ 2) ∧ (0 : ℝ) < 1 + 1 / 2 * Real.cos 0 ∧ ((0 : ℝ) < 1 ∧ (1 : ℝ) < Real.pi) := by
   refine ⟨by norm_num, by norm_num, by norm_num, by linarith [Real.pi_gt_three]⟩
 /-- the same for a hyperbola: a = -1, e = 2 (`p = a(1 − e²) = 3 > 0`) -/
